@@ -70,6 +70,28 @@ pub fn gen_bytes(len: usize, seed: u32, kind: u8) -> Vec<u8> {
                 }
             }
         }
+        4 => {
+            // all zero bytes
+            for b in v.iter_mut() {
+                *b = 0;
+            }
+        }
+        3 => {
+            // ascii text; "é" (C3 A9) straddles every multiple of 1 MiB (and of 64 KiB); one invalid byte early on
+            for b in v.iter_mut() {
+                *b = b'a' + (*b % 26);
+            }
+            let n = v.len();
+            let mut at = 65536usize;
+            while at < n {
+                v[at - 1] = 0xC3;
+                v[at] = 0xA9;
+                at += 65536;
+            }
+            if n > 3 {
+                v[2] = 0xFF;
+            }
+        }
         _ => {}
     }
     v
